@@ -166,7 +166,7 @@ def run_shard(shard, rec, tier, seed):
     else:
         for i in range(shard["count"]):
             rng = harness.rng_for(seed, ID, shard["name"], i)
-            case = gen.gen_chart(rng, "hostile" if i % 2 else "realistic", n_tracks=rng.choice([1, 2]),
+            case = gen.chart_or_interactions(rng, i, "hostile" if i % 2 else "realistic", rec, n_tracks=rng.choice([1, 2]),
                                  n_groups=rng.choice([2, 10, 60, 200]) if i % 20 != 1 else rng.choice([3000, 4500, 9000]), n_globals=0, n_tempos=rng.choice([1, 2, 2, 9, 40]))
             if i % 20 == 1:
                 rec.cls("track_with_thousands_of_notes")
